@@ -650,6 +650,8 @@ impl Aml for AddressSpace<u16> {
         sink.word(self.min); /* Min */
         sink.word(self.max); /* Max */
         sink.word(self.translation.unwrap_or(0));
+        assert!(self.min <= self.max, "address range minimum exceeds maximum");
+        assert!(self.max - self.min < u16::MAX, "address range size is not representable");
         let len = self.max - self.min + 1;
         sink.word(len); /* Length */
     }
@@ -667,6 +669,8 @@ impl Aml for AddressSpace<u32> {
         sink.dword(self.min); /* Min */
         sink.dword(self.max); /* Max */
         sink.dword(self.translation.unwrap_or(0)); /* Translation */
+        assert!(self.min <= self.max, "address range minimum exceeds maximum");
+        assert!(self.max - self.min < u32::MAX, "address range size is not representable");
         let len = self.max - self.min + 1;
         sink.dword(len); /* Length */
     }
@@ -684,6 +688,8 @@ impl Aml for AddressSpace<u64> {
         sink.qword(self.min); /* Min */
         sink.qword(self.max); /* Max */
         sink.qword(self.translation.unwrap_or(0)); /* Translation */
+        assert!(self.min <= self.max, "address range minimum exceeds maximum");
+        assert!(self.max - self.min < u64::MAX, "address range size is not representable");
         let len = self.max - self.min + 1;
         sink.qword(len); /* Length */
     }
